@@ -226,6 +226,15 @@ def check_value(dt, s, v, via='factory'):
         out.append(('C13-%s-tolerant-raises:%s' % (dt, type(e).__name__), '%r: %s' % (s, e)))
         return out
     want = enc if accepted else s
+    if not accepted and dt in ('NM', 'SI') and verdict != 'invalid' and isinstance(exc, MaxLengthReached) and s != '':
+        # a number for the library (lexically valid, or a spelling the definition leaves open), refused by STRICT for its length only: TOLERANT accepts it as a number, and the statement
+        # promises the same number (the same text when it is written in plain decimal form), not the spelling
+        try:
+            same = Decimal(tenc) == Decimal(s) and (not PLAIN.match(s) or tenc == s)
+        except Exception:
+            same = False
+        if same:
+            want = tenc
     if tenc != want:
         out.append(('C13-%s-tolerant-text-changed:%s' % (dt, _tag(dt, s)),
                     '%r -> %r under TOLERANT (STRICT %s)' % (s, tenc, 'gives %r' % enc if accepted else 'rejects')))
